@@ -561,7 +561,14 @@ func runLatencyCases(f lib.Flags, mon *lib.Monitor) map[string]int64 {
 	if f.Thorough() {
 		cases = append(cases, latencyCase{Kind: "latency", What: "value-bp-timeout", N: 1})
 	}
+	start := time.Now()
 	for _, c := range cases {
+		if time.Since(start) > 20*time.Second && strings.HasSuffix(c.What, "-stress") && !f.Thorough() {
+			// a correct tree needs a few seconds for all of this; on a broken one every scenario runs into its
+			// bounds three times: the remaining seeds of the stress scenarios would only repeat the finding
+			mon.Count("skipped: the family's time budget of the quick tier is used up")
+			continue
+		}
 		d := runConfirmed(c, mon)
 		key := "max_write_latency_us/" + c.What
 		if prev, ok := extra[key]; !ok || d.Microseconds() > prev {
